@@ -113,29 +113,18 @@ var seqExitSizes = []string{"1/3", "1/2", "all"}
 
 type seqOp struct {
 	kind int
-	size int
+	size string
 }
 
-func (o seqOp) String() string {
-	if o.kind >= 6 {
-		return seqKinds[o.kind] + ":" + seqExitSizes[o.size]
-	}
-	return seqKinds[o.kind] + ":" + seqTradeSizes[o.size]
-}
+func (o seqOp) String() string { return seqKinds[o.kind] + ":" + o.size }
 
+// parseSeqOp accepts any size name resolveSize / exitFraction understand (the explorer only uses the
+// three alphabet sizes; replays written by hand may use others).
 func parseSeqOp(s string) seqOp {
 	p := strings.SplitN(s, ":", 2)
 	for k, n := range seqKinds {
-		if n == p[0] {
-			sz := seqTradeSizes
-			if k >= 6 {
-				sz = seqExitSizes
-			}
-			for i, z := range sz {
-				if z == p[1] {
-					return seqOp{k, i}
-				}
-			}
+		if n == p[0] && len(p) == 2 {
+			return seqOp{k, p[1]}
 		}
 	}
 	panic("bad op " + s)
@@ -145,14 +134,18 @@ func seqAlphabet() []seqOp {
 	var a []seqOp
 	for k := range seqKinds {
 		for s := 0; s < 3; s++ {
-			a = append(a, seqOp{k, s})
+			if k >= 6 {
+				a = append(a, seqOp{k, seqExitSizes[s]})
+			} else {
+				a = append(a, seqOp{k, seqTradeSizes[s]})
+			}
 		}
 	}
 	return a
 }
 
-func exitFraction(size int, shares *big.Int) *big.Int {
-	switch seqExitSizes[size] {
+func exitFraction(size string, shares *big.Int) *big.Int {
+	switch size {
 	case "1/3":
 		return new(big.Int).Quo(shares, big.NewInt(3))
 	case "1/2":
@@ -171,15 +164,10 @@ type seqState struct {
 	// accumulated allowed relative per-share fall (exact rational): 2*powPrecision per Pow-bearing part
 	// plus explicitly counted user-favourable rounding units
 	eps *big.Rat
-	// stableswap single-asset joins on the path (their share count comes from a binary search with a
-	// documented additive tolerance of one unit)
-	stableSingleJoins int
-	obsFall           float64 // sum of observed stableswap single-join per-share falls (observation)
 }
 
 func (s *seqState) clone() *seqState {
-	return &seqState{h: s.h.clone(), shares: new(big.Int).Set(s.shares), g: cloneInts(s.g), eps: new(big.Rat).Set(s.eps),
-		stableSingleJoins: s.stableSingleJoins, obsFall: s.obsFall}
+	return &seqState{h: s.h.clone(), shares: new(big.Int).Set(s.shares), g: cloneInts(s.g), eps: new(big.Rat).Set(s.eps)}
 }
 
 func (s *seqState) hash() [32]byte {
@@ -188,30 +176,132 @@ func (s *seqState) hash() [32]byte {
 }
 
 type seqRun struct {
-	sk   *collector
-	cfg  *seqConfig
-	init balSnap
-	path []seqOp
+	sk      *collector
+	cfg     *seqConfig
+	init    balSnap
+	path    []seqOp
+	pending []pendingViol // violations raised by the last apply / closing, before shrinking
+	quiet   bool          // shrinking probe: record only
 }
 
-func (r *seqRun) sig() string {
-	p := make([]string, len(r.path))
-	for i, o := range r.path {
-		p[i] = o.String()
-	}
-	return "seq|" + r.cfg.Name + "|" + strings.Join(p, ",")
+type pendingViol struct {
+	assertion, detail string
+	closing           bool
 }
 
-func (r *seqRun) replay() SeqReplay {
-	p := make([]string, len(r.path))
-	for i, o := range r.path {
+func pathStrings(path []seqOp) []string {
+	p := make([]string, len(path))
+	for i, o := range path {
 		p[i] = o.String()
 	}
-	return SeqReplay{Part: 2, Config: *r.cfg, Ops: p}
+	return p
 }
+
+func (r *seqRun) sigOf(path []seqOp) string {
+	return "seq|" + r.cfg.Name + "|" + strings.Join(pathStrings(path), ",")
+}
+
+var inClosing bool
 
 func (r *seqRun) viol(assertion, detail string) {
-	r.sk.violation(assertion, r.sig(), r.sig()+": "+detail, r.replay())
+	r.pending = append(r.pending, pendingViol{assertion: assertion, detail: detail, closing: inClosing})
+}
+
+// probe replays path on a fresh pool with a scratch collector and reports whether the last operation
+// (closing == false) or the closing evaluation (closing == true) raises assertion; every earlier
+// operation must be accepted by the real code and pass its oracles.
+func (r *seqRun) probe(path []seqOp, assertion string, closing bool) (bool, string) {
+	q := &seqRun{sk: &collector{r: core.NewResult(""), max: map[string]float64{}}, cfg: r.cfg, init: r.init, quiet: true}
+	s := newSeqState(r.cfg)
+	for i, op := range path {
+		q.path = path[:i+1]
+		q.pending = nil
+		class, ok := q.apply(s, op)
+		if class != "" {
+			return false, ""
+		}
+		last := i == len(path)-1
+		if !ok {
+			if last && !closing {
+				for _, pv := range q.pending {
+					if pv.assertion == assertion {
+						return true, pv.detail
+					}
+				}
+			}
+			return false, ""
+		}
+	}
+	if !closing {
+		return false, ""
+	}
+	q.path = path
+	q.pending = nil
+	q.closing(s)
+	for _, pv := range q.pending {
+		if pv.assertion == assertion {
+			return true, pv.detail
+		}
+	}
+	return false, ""
+}
+
+// flush shrinks every pending violation to a minimal op list (greedy removal of single operations, front
+// first, repeated to a fixpoint) and reports it under that normalised signature.
+func (r *seqRun) flush() {
+	pend := r.pending
+	r.pending = nil
+	if r.quiet {
+		r.pending = pend
+		return
+	}
+	for _, pv := range pend {
+		r.sk.r.Extra["sum_violating_sequences_"+pv.assertion] = asInt(r.sk.r.Extra["sum_violating_sequences_"+pv.assertion]) + 1
+		path := append([]seqOp{}, r.path...)
+		detail := pv.detail
+		key := pv.assertion + "|" + r.sigOf(path)
+		if m, ok := shrinkMemo[key]; ok {
+			path, detail = m.path, m.detail
+		} else {
+			for changed := true; changed; {
+				changed = false
+				for i := 0; i < len(path); i++ {
+					if !pv.closing && i == len(path)-1 {
+						break
+					}
+					cand := append(append([]seqOp{}, path[:i]...), path[i+1:]...)
+					if len(cand) == 0 {
+						continue
+					}
+					if hit, d := r.probe(cand, pv.assertion, pv.closing); hit {
+						path, detail, changed = cand, d, true
+						break
+					}
+				}
+			}
+			shrinkMemo[key] = shrunk{path, detail}
+		}
+		r.sk.violation(pv.assertion, r.sigOf(path), r.sigOf(path)+": "+detail, SeqReplay{Part: 2, Config: *r.cfg, Ops: pathStrings(path)})
+	}
+}
+
+type shrunk struct {
+	path   []seqOp
+	detail string
+}
+
+var shrinkMemo = map[string]shrunk{}
+
+func newSeqState(cfg *seqConfig) *seqState {
+	h, err := newPoolH(cfg)
+	if err != nil {
+		panic(err)
+	}
+	s := &seqState{h: h, shares: new(big.Int), g: make([]*big.Int, h.n()), eps: new(big.Rat)}
+	for i := range s.g {
+		s.g[i] = new(big.Int)
+	}
+	return s
 }
 
 // eps2 = 2*powPrecision
@@ -249,8 +339,17 @@ func (r *seqRun) perShare(s *seqState, before, after balSnap, parts int64, units
 	cmp, fall := stablePerShareCmp(before, after, r.cfg.Scaling)
 	if cmp < 0 {
 		if what == "joinSingleA" {
-			s.obsFall += fall
+			// stableswap single-asset join: no per-operation claim in the statement; its observed effect is
+			// carried into the sequence allowance (its own oracles: share cap here, round trip in part 1)
+			up := new(big.Rat).SetFloat64(fall * (1 + 1e-9))
+			up.Add(up, big.NewRat(1, 1000000000000000000))
+			s.eps.Add(s.eps, up)
+			allow := stableSingleJoinAllowance(before.B, r.cfg.Scaling, 0)
+			if a2 := stableSingleJoinAllowance(after.B, r.cfg.Scaling, 0); a2.Cmp(allow) > 0 {
+				allow = a2
+			}
 			r.sk.maxExtra("max_stable_single_join_pershare_fall", fall)
+			r.sk.maxExtra("max_stable_single_join_fall_over_unit_allowance", fall/f64(fRat(allow)))
 			r.sk.vac("obs_stable_single_join_pershare_fell")
 			return true
 		}
@@ -299,13 +398,13 @@ func (r *seqRun) apply(s *seqState, op seqOp) (class string, ok bool) {
 		}
 		var cl string
 		if strings.HasPrefix(kind, "swapIn") {
-			amt := resolveSize(seqTradeSizes[op.size], before.B[i])
+			amt := resolveSize(op.size, before.B[i])
 			if amt.Sign() == 0 {
 				return "skip:zero_amount", true
 			}
 			cl = swapIn(i, j, amt)
 		} else {
-			amt := resolveSize(seqTradeSizes[op.size], before.B[j])
+			amt := resolveSize(op.size, before.B[j])
 			if amt.Sign() == 0 {
 				return "skip:zero_amount", true
 			}
@@ -349,7 +448,7 @@ func (r *seqRun) apply(s *seqState, op seqOp) (class string, ok bool) {
 		r.account(s, before, after)
 
 	case "joinSingleA":
-		amt := resolveSize(seqTradeSizes[op.size], before.B[0])
+		amt := resolveSize(op.size, before.B[0])
 		if amt.Sign() == 0 {
 			return "skip:zero_amount", true
 		}
@@ -372,7 +471,6 @@ func (r *seqRun) apply(s *seqState, op seqOp) (class string, ok bool) {
 			ok = false
 		}
 		if cfg.Pool == "stable" {
-			s.stableSingleJoins++
 			r.sk.vac("stable_single_join_binary_search")
 			if new(big.Int).Mul(sh.BigInt(), before.B[0]).Cmp(new(big.Int).Mul(amt, before.S)) > 0 {
 				r.viol("stable_single_join_exceeds_cap", fmt.Sprintf("shares %s * A %s > in %s * S %s", sh, before.B[0], amt, before.S))
@@ -389,7 +487,7 @@ func (r *seqRun) apply(s *seqState, op seqOp) (class string, ok bool) {
 		tokens := sdk.Coins{}
 		offered := make([]*big.Int, len(before.B))
 		for i := range before.B {
-			amt := resolveSize(seqTradeSizes[op.size], before.B[i])
+			amt := resolveSize(op.size, before.B[i])
 			if i == 1 {
 				amt = new(big.Int).Add(new(big.Int).Lsh(amt, 1), big.NewInt(1))
 			}
@@ -456,7 +554,7 @@ func (r *seqRun) apply(s *seqState, op seqOp) (class string, ok bool) {
 			wa := normW(cfg.Weights, 0)
 			num := new(big.Int).Mul(s.shares, before.B[0])
 			q := rQuo(rInt(num), rMul(rInt(before.S), wa))
-			switch seqExitSizes[op.size] {
+			switch op.size {
 			case "1/3":
 				q = rQuo(q, rI64(3))
 			case "1/2":
@@ -589,16 +687,12 @@ func (r *seqRun) exitChecks(s *seqState, before, after balSnap, sh *big.Int, wha
 	return ok
 }
 
-// stableSingleJoinAllowanceUnits: a stableswap single-asset join picks its share count by a binary search
-// that accepts a share count whose exit-and-swap-back estimate is within one token unit below the amount
-// joined; the estimate itself truncates one unit per exited asset and one per swap leg. Explicitly
-// counted: (1 + 2*(n-1) + 1) units of the joined denom per such join.
-func stableSingleJoinAllowanceUnits(n int) int64 { return int64(2 + 2*(n-1)) }
-
 // closing: the actor exits all its shares proportionally; then its net token vector must not dominate
 // zero and must not be worth more at the pool's initial marginal prices, beyond the accumulated
 // allowance.
 func (r *seqRun) closing(s0 *seqState) {
+	inClosing = true
+	defer func() { inClosing = false }()
 	s := s0.clone()
 	cfg := r.cfg
 	if s.shares.Sign() > 0 {
@@ -655,13 +749,7 @@ func (r *seqRun) closing(s0 *seqState) {
 		}
 		d := int64(len(x0) + 2)
 		gain.Quo(gain, rMul(rI64(d), fullK(x0)))
-		// allowance: explicit units of denom a per single-asset join, valued at the initial price of a
-		allow = new(big.Rat)
-		if s.stableSingleJoins > 0 {
-			u := rI64(int64(s.stableSingleJoins) * stableSingleJoinAllowanceUnits(len(x0)))
-			ua := rQuo(u, rInt(new(big.Int).SetUint64(cfg.Scaling[0])))
-			allow = rQuo(rMul(grad[0], ua), rMul(rI64(d), fullK(x0)))
-		}
+		allow = s.eps
 	}
 	if gain.Sign() > 0 {
 		r.sk.maxExtra("max_seq_gain_fraction_of_pool_value_"+cfg.Pool, f64(fRat(gain)))
@@ -703,21 +791,23 @@ func (r *seqRun) dfs(s *seqState, depth int, alphabet []seqOp, expired func() bo
 	return true
 }
 
-// step applies op to a copy of s, evaluates the oracles there (when eval) and descends.
+// step applies op to a copy of s, evaluates the oracles there (when eval; otherwise the prefix is evaluated
+// by another work item and is only re-executed here) and descends.
 func (r *seqRun) step(s *seqState, op seqOp, depth int, alphabet []seqOp, expired func() bool, eval bool) bool {
 	n := s.clone()
 	r.path = append(r.path, op)
 	defer func() { r.path = r.path[:len(r.path)-1] }()
-	var sk *collector
+	keep := r.sk
 	if !eval {
-		// re-execution of a prefix that another work item evaluates: do not double count or double report
-		sk = r.sk
-		r.sk = &collector{r: core.NewResult(sk.r.Property), max: map[string]float64{}}
+		r.sk = &collector{r: core.NewResult(""), max: map[string]float64{}}
 	}
+	r.pending = nil
 	class, ok := r.apply(n, op)
-	if !eval {
-		r.sk = sk
+	if eval {
+		r.flush()
 	}
+	r.pending = nil
+	r.sk = keep
 	if class != "" {
 		if eval {
 			r.sk.reject(class)
@@ -732,6 +822,10 @@ func (r *seqRun) step(s *seqState, op seqOp, depth int, alphabet []seqOp, expire
 			r.sk.r.States++
 		}
 		r.closing(n)
+		r.flush()
+		if r.sk.r.Traces%4999 == 1 {
+			r.sk.r.AddSample(r.sigOf(r.path))
+		}
 	}
 	return r.dfs(n, depth+1, alphabet, expired)
 }
@@ -741,49 +835,33 @@ func seqItems(thorough bool) []workItem {
 	alphabet := seqAlphabet()
 	for _, cfg := range seqConfigs(thorough) {
 		cfg := cfg
-		for i1, op1 := range alphabet {
+		for _, op1 := range alphabet {
 			for i2, op2 := range alphabet {
 				i2, op1, op2 := i2, op1, op2
-				_ = i1
 				items = append(items, workItem{name: fmt.Sprintf("seq/%s/%s/%s", cfg.Name, op1, op2), run: func(sk *collector, expired func() bool) bool {
-					h, err := newPoolH(&cfg)
-					if err != nil {
-						panic(err)
-					}
-					s := &seqState{h: h, shares: new(big.Int), g: make([]*big.Int, h.n()), eps: new(big.Rat)}
-					for i := range s.g {
-						s.g[i] = new(big.Int)
-					}
-					r := &seqRun{sk: sk, cfg: &cfg, init: h.snap()}
-					// level 1 is evaluated by the item with op2 == first letter only
-					first := i2 == 0
+					s := newSeqState(&cfg)
+					r := &seqRun{sk: sk, cfg: &cfg, init: s.h.snap()}
+					// the level-1 node [op1] is evaluated by the item with op2 == first letter only; the other
+					// items of the same op1 merely re-execute it
 					n := s.clone()
-					r.path = []seqOp{op1}
-					var keep *collector
-					if !first {
-						keep = r.sk
-						r.sk = &collector{r: core.NewResult(sk.r.Property), max: map[string]float64{}}
-					}
-					class, ok := r.apply(n, op1)
-					if !first {
-						r.sk = keep
-					}
-					if class != "" {
-						if first {
-							sk.reject(class)
-						}
-						return true
-					}
-					if !ok {
-						return true
-					}
-					if first {
-						if seqSeen.Add(n.hash()) {
-							sk.r.States++
-						}
-						r.closing(n)
-					}
 					if cfg.Depth < 2 {
+						if i2 != 0 {
+							return true
+						}
+						return r.step(s, op1, 0, alphabet, expired, true)
+					}
+					if i2 == 0 {
+						// evaluate [op1] without descending
+						r1 := &seqRun{sk: sk, cfg: &seqConfig{Name: cfg.Name, Pool: cfg.Pool, Reserves: cfg.Reserves, Weights: cfg.Weights, Scaling: cfg.Scaling, Fee: cfg.Fee, ExitFee: cfg.ExitFee, Depth: 1}, init: r.init}
+						r1.step(s, op1, 0, alphabet, expired, true)
+					}
+					r.path = []seqOp{op1}
+					scratch := &collector{r: core.NewResult(""), max: map[string]float64{}}
+					r.sk = scratch
+					class, ok := r.apply(n, op1)
+					r.pending = nil
+					r.sk = sk
+					if class != "" || !ok {
 						return true
 					}
 					return r.step(n, op2, 1, alphabet, expired, true)
@@ -796,19 +874,14 @@ func seqItems(thorough bool) []workItem {
 
 func replaySeq(sk *collector, rp SeqReplay) {
 	cfg := rp.Config
-	h, err := newPoolH(&cfg)
-	if err != nil {
-		panic(err)
-	}
-	s := &seqState{h: h, shares: new(big.Int), g: make([]*big.Int, h.n()), eps: new(big.Rat)}
-	for i := range s.g {
-		s.g[i] = new(big.Int)
-	}
-	r := &seqRun{sk: sk, cfg: &cfg, init: h.snap()}
+	s := newSeqState(&cfg)
+	r := &seqRun{sk: sk, cfg: &cfg, init: s.h.snap()}
 	for _, o := range rp.Ops {
 		op := parseSeqOp(o)
 		r.path = append(r.path, op)
+		r.pending = nil
 		class, ok := r.apply(s, op)
+		r.flush()
 		fmt.Printf("replay: %s -> class=%q ok=%v pool=%v/%s actor shares=%s g=%v\n", o, class, ok, strs(s.h.snap().B), s.h.snap().S, s.shares, strs(s.g))
 		if class != "" {
 			sk.reject(class)
@@ -821,4 +894,5 @@ func replaySeq(sk *collector, rp SeqReplay) {
 		}
 	}
 	r.closing(s)
+	r.flush()
 }
